@@ -150,6 +150,7 @@ pub struct ExecDb {
     pub fault: Option<FaultPlan>,
     fired: AtomicU32,
     calls: AtomicUsize,
+    panicked: std::sync::atomic::AtomicBool,
     /// emit a protocol point inside every fetch (a "slow database")
     pub slow: bool,
     pub log: Option<std::sync::Mutex<Vec<DbKey>>>,
@@ -164,6 +165,7 @@ impl ExecDb {
             fault,
             fired: AtomicU32::new(0),
             calls: AtomicUsize::new(0),
+            panicked: std::sync::atomic::AtomicBool::new(false),
             slow,
             log: log.then(|| std::sync::Mutex::new(Vec::new())),
         }
@@ -171,6 +173,10 @@ impl ExecDb {
 
     pub fn calls(&self) -> usize {
         self.calls.load(Ordering::Relaxed)
+    }
+
+    pub fn panicked(&self) -> bool {
+        self.panicked.load(Ordering::Relaxed)
     }
 
     fn touch(&self, key: DbKey, point: bool) -> Result<(), DbErr> {
@@ -185,6 +191,7 @@ impl ExecDb {
             match plan.mode {
                 FaultMode::PanicAtCall(k) => {
                     if n == k {
+                        self.panicked.store(true, Ordering::Relaxed);
                         panic!("{}", INJECTED_PANIC);
                     }
                 }
@@ -808,4 +815,45 @@ pub fn spec_name(s: SpecId) -> &'static str {
         SpecId::OSAKA => "OSAKA",
         _ => "OTHER",
     }
+}
+
+/// EIP-1559 transaction.
+pub fn with_1559(mut t: TxEnv, max_fee: u128, tip: u128) -> TxEnv {
+    t.tx_type = 2;
+    t.gas_price = max_fee;
+    t.gas_priority_fee = Some(tip);
+    t
+}
+
+/// One EIP-7702 authorisation tuple (authority `auth` delegates to `target`; `Address::ZERO`
+/// clears) with pre-recovered authority.
+pub fn authorization(
+    auth: Address,
+    auth_nonce: u64,
+    target: Address,
+) -> revm_context::either::Either<
+    revm_context::transaction::SignedAuthorization,
+    revm_context::transaction::RecoveredAuthorization,
+> {
+    use revm_context::transaction::{Authorization, RecoveredAuthority, RecoveredAuthorization};
+    revm_context::either::Either::Right(RecoveredAuthorization::new_unchecked(
+        Authorization { chain_id: U256::from(1u64), address: target, nonce: auth_nonce },
+        RecoveredAuthority::Valid(auth),
+    ))
+}
+
+/// EIP-7702 (type 4) transaction wrapping `t` (must be a call).
+pub fn with_auths(
+    mut t: TxEnv,
+    auths: Vec<
+        revm_context::either::Either<
+            revm_context::transaction::SignedAuthorization,
+            revm_context::transaction::RecoveredAuthorization,
+        >,
+    >,
+) -> TxEnv {
+    t.tx_type = 4;
+    t.gas_priority_fee = Some(1);
+    t.authorization_list = auths;
+    t
 }
